@@ -356,3 +356,100 @@ func TestVerif_C01_RunLoop(t *testing.T) {
 func TestVerif_C13_RunLoop(t *testing.T) {
 	vh.Check(t, vh.Prop[procCase]{ID: "C13", Gen: genC13, Run: runC13Loop})
 }
+
+// ------------------------------------------------------------------ C13 (c): cleanup ticks of the real Run loop while traffic arrives
+
+// The aggregation state belongs to the Run loop's goroutine: handlers and the cleanup pass touch it without locks. The
+// unit lets the loop's own ticker fire every few hundred microseconds while valid observations for new digests stream
+// in. Whatever the interleaving, the loop neither dies nor stalls; run under the race detector, an access to the
+// aggregation state from a second goroutine is reported even when the two accesses do not collide in time.
+type c13TickCase struct {
+	Entries int `json:"entries"` // aggregation entries present before the ticks start
+	TickUs  int `json:"tick_us"`
+	Obs     int `json:"obs"` // observations streamed while the ticker fires
+}
+
+func runC13Ticks(c c13TickCase) (*vh.Violation, vh.Outcome) {
+	out := vh.Outcome{NonTrivial: c.Entries > 0 && c.Obs > 0}
+	d, sctx := fixtures()
+	e := &penv{d: d, ctx: sctx, ownKey: ownKeyIdx, byBody: map[string]int{}, setByIdx: map[uint32]*setInfo{}, shadow: map[string][]byte{}, ids: map[string]vaa.VAAID{}}
+	e.govAddr = nsAddr(0, 9)
+	setC := make(chan *common.GuardianSet)
+	died := make(chan string, 1)
+	e.sendC = make(chan []byte, 8192)
+	e.obsvC = make(chan *gossipv1.SignedObservation)
+	e.reqC = make(chan *gossipv1.ObservationRequest, 50)
+	gst := common.NewGuardianSetState(nil)
+	e.p = NewProcessor(sctx, d, make(chan *common.MessagePublication), setC, e.sendC, e.obsvC, e.reqC, make(chan *vaa.VAA), make(chan *gossipv1.SignedVAAWithQuorum),
+		poolSigner{vh.Key(e.ownKey)}, gst, reporter.EventListener(zap.NewNop()), nil, govChain, e.govAddr)
+	e.p.logger = zap.NewNop()
+	ctx, cancel := context.WithCancel(sctx)
+	done := make(chan struct{})
+	go func() {
+		defer close(done)
+		defer func() {
+			if r := recover(); r != nil {
+				died <- fmt.Sprintf("panic in Processor.Run: %v\n%s", r, debug.Stack())
+			}
+		}()
+		_ = e.p.Run(ctx)
+	}()
+	defer func() {
+		cancel()
+		for {
+			select {
+			case <-done:
+				return
+			case <-e.obsvC:
+			case <-time.After(3 * time.Second):
+				return
+			}
+		}
+	}()
+	fail := func(what, why string) (*vh.Violation, vh.Outcome) {
+		if why == stalledMsg {
+			return vh.V("C13/run-loop-stalled", "%s: %s", what, why), out
+		}
+		return vh.V("C13/run-loop-died", "%s: %s", what, why), out
+	}
+	addrs := []ethcommon.Address{vh.Addr(e.ownKey), vh.Addr(1), vh.Addr(2)}
+	if why, ok := send(setC, &common.GuardianSet{Keys: addrs, Index: 0}, died); !ok {
+		return fail("guardian set", why)
+	}
+	n := 0
+	obs := func() *gossipv1.SignedObservation {
+		n++
+		dg := vh.RefDigest([]byte(fmt.Sprintf("c13-ticks-%d", n)))
+		return &gossipv1.SignedObservation{Addr: vh.Addr(1).Bytes(), Hash: dg[:], Signature: vh.SignDigest(1, dg[:]), TxHash: dg[:], MessageId: "2/00/0"}
+	}
+	for i := 0; i < c.Entries; i++ {
+		if why, ok := send(e.obsvC, obs(), died); !ok {
+			return fail("filling the aggregation state", why)
+		}
+	}
+	garbage := &gossipv1.SignedObservation{Hash: []byte{1}, Signature: []byte{2}, Addr: []byte{3}}
+	if why, ok := send(e.obsvC, garbage, died); !ok {
+		return fail("barrier", why)
+	}
+	// the loop is past the statement that created its ticker (it has received from its channels): shorten the period
+	e.p.cleanup.Reset(time.Duration(c.TickUs) * time.Microsecond)
+	for i := 0; i < c.Obs; i++ {
+		if why, ok := send(e.obsvC, obs(), died); !ok {
+			return fail(fmt.Sprintf("observation %d of %d with the cleanup ticker at %d us and %d entries", i, c.Obs, c.TickUs, c.Entries), why)
+		}
+	}
+	e.p.cleanup.Reset(30 * time.Second)
+	for k := 0; k < 2; k++ {
+		if why, ok := send(e.obsvC, garbage, died); !ok {
+			return fail("after the stream", why)
+		}
+	}
+	return nil, out
+}
+
+func TestVerif_C13_RunLoopTicks(t *testing.T) {
+	vh.Check(t, vh.Prop[c13TickCase]{ID: "C13", Gen: func(t *rapid.T) c13TickCase {
+		return c13TickCase{Entries: rapid.SampledFrom([]int{0, 10, 300, 3000}).Draw(t, "entries"), TickUs: rapid.SampledFrom([]int{50, 200, 1000, 5000}).Draw(t, "tick"),
+			Obs: rapid.IntRange(1, 600).Draw(t, "obs")}
+	}, Run: runC13Ticks})
+}
